@@ -62,6 +62,70 @@ PROPERTIES["C11"] = {"run": _c11, "assumptions": [
     "one model per simulator in the correspondence worlds", "groups are identified by their path from the main group (identity)"]}
 
 
+def _sched(monitor_for, quick=(150, 3), thorough=(2500, 6), extra=None, **genkw):
+    """Scheduler properties: correspondence of model and code over generated scenarios and reply
+    schedules + the property's monitor on the implementation traces."""
+    def run(o, driver, rng):
+        import sched_corr as scorr
+        n_sc, n_sched = quick if o.tier == "quick" else thorough
+        res = scorr.run_sched_suite(driver, rng, n_sc, n_sched, monitor=monitor_for, **genkw)
+        o.suites.append(res)
+        o.violations.extend(res["violations"])
+        o.monitor_stats["impl_traces_monitored"] = res["traces"]
+        o.monitor_stats["impl_monitor_violations"] = len(res["violations"])
+        if extra:
+            extra(o, driver, rng)
+    return run
+
+
+def _mon(name):
+    import monitors_sched as ms
+    def m(sc, c, outcome):
+        if name == "C01":
+            return ms.mon_c01_c10(sc, c)[0]
+        if name == "C10":
+            return ms.mon_c01_c10(sc, c)[1]
+        if name == "C02":
+            return ms.mon_c02(sc, c, outcome)
+        if name == "C05":
+            return ms.mon_c05(sc, c, outcome)
+        if name == "C07":
+            return ms.mon_c07(sc, c)
+        if name == "C09":
+            return ms.mon_c09(sc, c, outcome)
+        if name == "C13":
+            return ms.mon_c13(sc, c, outcome)
+        return []
+    return m
+
+
+def _replay_d7(pid):
+    """Replay the listed witness of finding D7 on the implementation."""
+    def extra(o, driver, rng):
+        import common, sched_corr as scorr
+        for f in common.known_findings()["findings"]:
+            if f["property"] == pid and f["id"] == "D7-reentrant-paths":
+                w = f["witness"]
+                outcome, _ = scorr.run_impl(scorr.normalise(w["scenario"]), w["schedule_seed"])
+                o.monitor_stats["known_finding_replays"] = o.monitor_stats.get("known_finding_replays", 0) + 1
+                if outcome == w["expected_outcome"]:
+                    o.violations.append({"law": "run() fails with an internal error (incomparable delays)", "finding": f["id"],
+                                         "scenario": w["scenario"], "outcome": outcome})
+    return extra
+
+
+SCHED_ASSUME = ["simulators always answer; replies API-compliant except where a fault is injected",
+                "configuration hypotheses WFCfg (closure of the ancestor table etc.) are checked by the driver on every generated scenario (wfB, proved sound); scenarios where two paths between the same simulators leave and re-enter a group are outside them (finding D7)",
+                "theorems are about the transition system whose actions are the atomic blocks between awaits; asyncio only chooses which enabled action fires next"]
+
+PROPERTIES["C01"] = {"run": _sched(_mon("C01")), "assumptions": SCHED_ASSUME}
+PROPERTIES["C02"] = {"run": _sched(_mon("C02")), "assumptions": SCHED_ASSUME + ["the liveness half (every demanded step is executed) is not a theorem yet: monitor + correspondence only"]}
+PROPERTIES["C05"] = {"run": _sched(_mon("C05"), extra=_replay_d7("C05")), "assumptions": SCHED_ASSUME + ["deadlock freedom and termination are not theorems yet: monitor + correspondence only"]}
+PROPERTIES["C09"] = {"run": _sched(_mon("C09")), "assumptions": SCHED_ASSUME}
+PROPERTIES["C10"] = {"run": _sched(_mon("C10")), "assumptions": SCHED_ASSUME}
+PROPERTIES["C13"] = {"run": _sched(_mon("C13"), faults=True), "assumptions": SCHED_ASSUME}
+
+
 def replay(pid: str, path: str) -> int:
     """Re-run the case stored in a replay file against the current tree."""
     rp = json.load(open(path))
